@@ -5,8 +5,100 @@
 //! compiles a rewritten copy in which those paths point here, so that every lock, atomic access
 //! and thread-local becomes a scheduling point / per-simulated-thread object under shuttle.
 //! The unmodified repository has no such site; the rewrite is then the identity.
-pub use shuttle::lazy_static;
-pub use shuttle::lazy_static::*;
+pub use shuttle::lazy_static::{initialize, LazyStatic};
+
+/// True on a thread that the shuttle scheduler runs as part of an execution. Library code that
+/// starts real OS threads of its own (`std::thread::scope`, a thread pool) runs outside; there the
+/// shim falls back to the real primitives instead of panicking, so that a change which is
+/// correct but internally parallel cannot look like a violation.
+pub fn in_shuttle() -> bool {
+    !matches!(
+        shuttle_engine::runtime::execution::ExecutionState::try_with(|_| ()),
+        Err(shuttle_engine::runtime::execution::ExecutionStateBorrowError::NotSet)
+    )
+}
+
+/// A lazy static cell: shuttle's scheduler-controlled `Lazy` inside an execution, a plain
+/// `std::sync::OnceLock` outside.
+pub struct Lazy<T: Sync + 'static> {
+    sim: shuttle::lazy_static::Lazy<T>,
+    real: std::sync::OnceLock<T>,
+    init: fn() -> T,
+}
+
+impl<T: Sync + 'static> Lazy<T> {
+    pub const fn new(init: fn() -> T) -> Self {
+        Lazy { sim: shuttle::lazy_static::Lazy::new(init), real: std::sync::OnceLock::new(), init }
+    }
+    pub fn get(&'static self) -> &'static T {
+        if in_shuttle() {
+            self.sim.get()
+        } else {
+            self.real.get_or_init(self.init)
+        }
+    }
+}
+
+impl<T: Sync + 'static> std::fmt::Debug for Lazy<T> {
+    fn fmt(&self, f: &mut std::fmt::Formatter<'_>) -> std::fmt::Result {
+        f.write_str("Lazy(..)")
+    }
+}
+
+/// The `lazy_static!` macro of the lazy_static crate (v1.4 surface), over [`Lazy`].
+#[macro_export]
+macro_rules! lazy_static {
+    ($(#[$attr:meta])* static ref $N:ident : $T:ty = $e:expr; $($t:tt)*) => {
+        $crate::__lazy_static_internal!($(#[$attr])* () static ref $N : $T = $e; $($t)*);
+    };
+    ($(#[$attr:meta])* pub static ref $N:ident : $T:ty = $e:expr; $($t:tt)*) => {
+        $crate::__lazy_static_internal!($(#[$attr])* (pub) static ref $N : $T = $e; $($t)*);
+    };
+    ($(#[$attr:meta])* pub ($($vis:tt)+) static ref $N:ident : $T:ty = $e:expr; $($t:tt)*) => {
+        $crate::__lazy_static_internal!($(#[$attr])* (pub ($($vis)+)) static ref $N : $T = $e; $($t)*);
+    };
+    () => ()
+}
+
+#[macro_export]
+#[doc(hidden)]
+macro_rules! __lazy_static_internal {
+    ($(#[$attr:meta])* ($($vis:tt)*) static ref $N:ident : $T:ty = $e:expr; $($t:tt)*) => {
+        $crate::__lazy_static_internal!(@MAKE TY, $(#[$attr])*, ($($vis)*), $N);
+        $crate::__lazy_static_internal!(@TAIL, $N : $T = $e);
+        $crate::lazy_static!($($t)*);
+    };
+    (@TAIL, $N:ident : $T:ty = $e:expr) => {
+        impl ::std::ops::Deref for $N {
+            type Target = $T;
+            fn deref(&self) -> &$T {
+                #[inline(always)]
+                fn __static_ref_initialize() -> $T { $e }
+                #[inline(always)]
+                fn __stability() -> &'static $T {
+                    static LAZY: $crate::Lazy<$T> = $crate::Lazy::new(__static_ref_initialize);
+                    LAZY.get()
+                }
+                __stability()
+            }
+        }
+        impl $crate::LazyStatic for $N {
+            fn initialize(lazy: &Self) {
+                let _ = &**lazy;
+            }
+        }
+    };
+    (@MAKE TY, $(#[$attr:meta])*, ($($vis:tt)*), $N:ident) => {
+        #[allow(missing_copy_implementations)]
+        #[allow(non_camel_case_types)]
+        #[allow(dead_code)]
+        $(#[$attr])*
+        $($vis)* struct $N {__private_field: ()}
+        #[doc(hidden)]
+        $($vis)* static $N: $N = $N {__private_field: ()};
+    };
+    () => ()
+}
 
 /// Drop-in for `std::sync`: shuttle's scheduler-aware primitives, plus `OnceLock`/`LazyLock`
 /// (which shuttle does not provide) built on `shuttle::sync::Once`.
@@ -19,14 +111,19 @@ pub mod vsync {
     pub struct OnceLock<T> {
         once: shuttle::sync::Once,
         val: UnsafeCell<Option<T>>,
+        /// used instead when called from a real OS thread outside the simulation
+        real: std::sync::OnceLock<T>,
     }
     unsafe impl<T: Send + Sync> Sync for OnceLock<T> {}
     unsafe impl<T: Send> Send for OnceLock<T> {}
     impl<T> OnceLock<T> {
         pub const fn new() -> Self {
-            OnceLock { once: shuttle::sync::Once::new(), val: UnsafeCell::new(None) }
+            OnceLock { once: shuttle::sync::Once::new(), val: UnsafeCell::new(None), real: std::sync::OnceLock::new() }
         }
         pub fn get(&self) -> Option<&T> {
+            if !crate::in_shuttle() {
+                return self.real.get();
+            }
             if self.once.is_completed() {
                 unsafe { (*self.val.get()).as_ref() }
             } else {
@@ -34,10 +131,16 @@ pub mod vsync {
             }
         }
         pub fn get_or_init<F: FnOnce() -> T>(&self, f: F) -> &T {
+            if !crate::in_shuttle() {
+                return self.real.get_or_init(f);
+            }
             self.once.call_once(|| unsafe { *self.val.get() = Some(f()) });
             unsafe { (*self.val.get()).as_ref().expect("OnceLock initialised") }
         }
         pub fn set(&self, value: T) -> Result<(), T> {
+            if !crate::in_shuttle() {
+                return self.real.set(value);
+            }
             let mut v = Some(value);
             self.once.call_once(|| unsafe { *self.val.get() = v.take() });
             match v {
